@@ -416,6 +416,12 @@ func (m *machine) writeTo(fr *frame, w value, text *Term) value {
 			}
 		}
 	}
+	// a writer implemented by interpretable code (a harness type): call its Write
+	if cs, ok := fromTerm(text).(string); ok {
+		if fn := m.w.prog.LookupMethod(itf.t, nil, "Write"); fn != nil && m.w.interpretable(fn) {
+			return m.callSSA(fr, 0, fn, []value{itf.v, bytesValue(cs)}, nil)
+		}
+	}
 	panic(cut{"write to unsupported io.Writer of type " + itf.t.String()})
 }
 
